@@ -91,6 +91,17 @@ Theorem C07_late_lock_refuted : exists w slate ttl tip,
 Proof. exact late_lock_reserves_before_verifying. Qed.
 Print Assumptions C07_late_lock_refuted.
 
+(** Open finding C07-refused-receive-leaves-record, mirrored: a receive refused for its signature
+    data has already written the recipient's output and log entry, and the genuine slate with
+    that id is then refused as already received. *)
+Theorem C07_refused_receive_leaves_record_refuted :
+  let w' := fst (receive empty_wallet 7 100 0 None false) in
+  snd (receive empty_wallet 7 100 0 None false) = Err ECrypto
+  /\ length (w_outs w') = 1%nat /\ length (w_log w') = 1%nat
+  /\ receive w' 7 100 0 None true = (w', Err EAlreadyReceived).
+Proof. vm_compute. repeat split; reflexivity. Qed.
+Print Assumptions C07_refused_receive_leaves_record_refuted.
+
 (** non-vacuity: a wallet with one spendable coinbase and one pending send; the foreign
     sequence (a receive, a coinbase naming an existing non-candidate key, a forged reply for the
     pending send, a replayed receive) leaves the coin and the context as they were. *)
